@@ -10,14 +10,14 @@ def run(tier, seed):
             'more (surplus queued) or fewer suggestions, mixed with CreateTrial (queued REQUESTED), completions, deletions; RAM and '
             'in-memory SQLite; model compared per step (response, datastore-call trace) and on the final stored state; '
             'non-trivial = at least 3 successful calls'),
-      monitors=[svcrun.wrap(svcmon.c02_step)], backends=('ram', 'sqlmem'), profile={'suggest': 0.5, 'fail': 0.05},
+      monitors=[svcrun.wrap(svcmon.c02_step), svcrun.wrap(svcmon.owner_step)], backends=('ram', 'sqlmem'), profile={'suggest': 0.5, 'fail': 0.05},
       extra=long_studies)
 
 
 def long_studies(rep, tier, seed, known, r):
   """A few long sequences on few studies, so that trial ids pass 10, 20, ... (id allocation must not depend on how ids sort)."""
   from harness import svcmon
-  return svcrun.service_part(rep, 'C02', r, tier, known, monitors=[svcrun.wrap(svcmon.c02_step)], backends=('ram', 'sqlmem'),
+  return svcrun.service_part(rep, 'C02', r, tier, known, monitors=[svcrun.wrap(svcmon.c02_step), svcrun.wrap(svcmon.owner_step)], backends=('ram', 'sqlmem'),
                              nseq_quick=3, nseq_thorough=25, length=(45, 60), tag='long',
                              profile={'suggest': 0.75, 'fail': 0.02, 'delete_study': 0.0, 'owner2': 0.0})
 
